@@ -8,6 +8,10 @@
 import AnyVecModel.Proofs.Exec
 import AnyVecModel.Props.Hist
 import AnyVecModel.Proofs.Move
+import AnyVecModel.Proofs.KernelInsert
+import AnyVecModel.Proofs.KernelPush
+import AnyVecModel.Proofs.KernelClear
+import AnyVecModel.Proofs.KernelConsume
 namespace AnyVec
 namespace C01
 open World
@@ -209,6 +213,41 @@ theorem history_elementwise_core (cfg : Cfg) (w : World) (hr : Hist.Reach cfg w)
     (hc : Hist.Core op) (hv : Hist.Valid w.vecs op) :
     (runStep cfg op f w).1.Inv ∧ (runStep cfg op f w).2.notUb :=
   Hist.runStep_inv cfg op f w (Hist.reach_inv_core cfg w hr) hc hv
+
+/-! ### tie to the source text: the element-moving functions -/
+
+/-- **source tie**: the model's `insert_unchecked`, `push_unchecked` and `clear` are the execution, in program order,
+of the memory commands those functions of `/repo/src/any_vec_raw.rs` issue, as re-translated on this run
+(`Gen/Kernel.lean`): the index assert, `reserve_one`, `len := index` *before* the shift, the shift of `len - index`
+slots from `index` to `index + 1` (typed `ptr::copy` / erased `copy_bytes`), `move_into(index)`, `len := len + 1`;
+`len := 0` before the erased destructor runs over the old length. -/
+theorem element_moves_are_the_source (cfg : Cfg) (w : World) (dst index : Nat) (x : Val) (d : VecSt)
+    (hv : w.vecs[dst]? = some d) (hl : d.live = true) :
+    insertUnchecked dst index x w =
+      KernelTie.runCmds (KernelTie.valCtx dst x d.hasDrop)
+        (Gen.Kernel.insert_unchecked_cmds d.len index (valKnownType x)) w ∧
+    (KernelTie.Val.borrows x ≠ some dst →
+      pushUnchecked dst x w =
+        KernelTie.runCmds (KernelTie.valCtx dst x d.hasDrop) (Gen.Kernel.push_unchecked_cmds d.len (valKnownType x)) w) ∧
+    step cfg (.clear dst) w =
+      (do KernelTie.runCmds { v := dst } (Gen.Kernel.clear_cmds d.len d.hasDrop)
+          if d.hasDrop then pure () else dropLoop dst false 0 d.len
+          pure [] : WM Out) w :=
+  ⟨KernelTie.insert_unchecked_tie w dst index x d hv hl, KernelTie.push_unchecked_tie w dst x d hv hl,
+   KernelTie.clear_tie cfg w dst d hv hl⟩
+
+/-- **source tie**: what a removal handle does to its vector when its value has left (`Operation::consume` of
+`/repo/src/ops/{pop,remove,swap_remove}.rs`, re-translated on this run): nothing for `pop`; for `remove` the shift
+of `last_index - index` slots from `index + 1` to `index`, then `len := last_index`; for `swap_remove` the copy of
+the last element over the removed slot unless they coincide, then `len := last_index`. -/
+theorem consume_is_the_source (w : World) (h : Handle) :
+    (h.kind = .pop → hConsume h = KernelTie.runCmds (KernelTie.hCtx h) Gen.Kernel.pop_consume_cmds) ∧
+    (∀ i last, h.kind = .remove i last →
+      hConsume h = KernelTie.runCmds (KernelTie.hCtx h) (Gen.Kernel.remove_consume_cmds i last h.typed)) ∧
+    (∀ s g last, h.kind = .swapRemove s g last →
+      hConsume h w = (do let slot ← hSlot h
+                         KernelTie.runCmds (KernelTie.hCtx h) (Gen.Kernel.swap_remove_consume_cmds slot last)) w) :=
+  ⟨KernelTie.pop_consume_tie h, KernelTie.remove_consume_tie h, fun s g last hk => KernelTie.swap_remove_consume_tie w h s g last hk⟩
 
 end C01
 end AnyVec
